@@ -59,6 +59,17 @@ SendLockedAct ==
        /\ Record([op |-> "sendlocked", w |-> wm[1], m |-> wm[2], amt |-> a, to |-> to, fees |-> f, sigall |-> sa])
   /\ UNCHANGED nmelt
 
+\* hash-locked ecash (NUT-14), optionally also locked to the recipient's key
+SendHtlcAct ==
+  /\ On("sendhtlc") /\ Rich # {} /\ Often(25)
+  /\ \E wm \in Pick(Rich) :
+     \E a \in Pick({x \in SendAmts : x + 3 <= b[wm[1]][wm[2]]} \cup {1}), to \in Pick((Wallets \ {wm[1]}) \cup {""}), f \in Pick(BOOLEAN) :
+       /\ b' = [b EXCEPT ![wm[1]][wm[2]] = @ - a - 2]
+       /\ toks' = Append(toks, [id |-> "t" \o ToString(ntok + 1), mint |-> wm[2], amt |-> a, to |-> to, used |-> FALSE])
+       /\ ntok' = ntok + 1
+       /\ Record([op |-> "sendhtlc", w |-> wm[1], m |-> wm[2], amt |-> a, to |-> to, fees |-> f])
+  /\ UNCHANGED nmelt
+
 ReceiveAct ==
   /\ On("receive")
   /\ \E i \in Pick({j \in DOMAIN toks : ~toks[j].used \/ Often(10)}) :
@@ -123,7 +134,7 @@ RestoreAct ==
   /\ \E w \in Pick(Wallets) : Record([op |-> "restore", w |-> w])
   /\ UNCHANGED <<b, toks, ntok, nmelt>>
 
-Acts == MintAct \/ SendAct \/ SendLockedAct \/ ReceiveAct \/ MeltAct \/ CheckMeltAct \/ ReclaimAct \/ RemoveSpentAct
+Acts == MintAct \/ SendAct \/ SendLockedAct \/ SendHtlcAct \/ ReceiveAct \/ MeltAct \/ CheckMeltAct \/ ReclaimAct \/ RemoveSpentAct
         \/ MintSwapAct \/ RotateAct \/ RestoreAct
 
 Done ==
